@@ -7,8 +7,13 @@ pub const CYCLE: i64 = 146_097;
 
 /// boundary-dense day number in the full representable range
 pub fn day(u: &mut Unstructured) -> Result<i64> {
-    let k = u.below(16)?;
+    let k = u.below(17)?;
     Ok(match k {
+        // the day of an instant at +-2^p units from either epoch (see pow2_instant)
+        16 => match pow2_instant(u)? {
+            Some(i) => i.div_euclid(tl::DAY_NS) as i64,
+            None => u.range_i64(cal::MIN_DAY, cal::MAX_DAY)?,
+        },
         0 => cal::MIN_DAY + u.below(800)? as i64,
         1 => cal::MAX_DAY - u.below(800)? as i64,
         // four 400-year cycles around 0001-01-01
@@ -99,6 +104,11 @@ pub fn count(u: &mut Unstructured) -> Result<u32> {
     let k = u.below(12)?;
     Ok(match k {
         0 => *u.choose(&[0u32, 1, 2, 23, 24, 25, 59, 60, 61, 999, 1000, 1001])?,
+        // counts at which count x unit crosses 2^31 / 2^32 / 2^53 nanoseconds
+        11 => {
+            let b = *u.choose(&[2_147u32, 4_294, 2_147_483, 4_294_967, 35, 71, 9_007_199, 150_119, 2_501, 104])?;
+            (b as i64 + u.range_i64(-1, 2)?).max(0) as u32
+        }
         1 => *u.choose(&[(1u32 << 31) - 1, 1 << 31, (1 << 31) + 1, u32::MAX - 1, u32::MAX])?,
         // thresholds where count*unit crosses 2^63 / 2^64 (hours, minutes)
         2 => {
